@@ -35,7 +35,10 @@ def run(ctx):
                 ("prog-vec-nograd", dict(MaxNodes=4, GAlpha={3, -2}, Ops=ALL, UseVec=True, MaxHist=3, MaxBackward=1, Acts={"op", "bw"}, InitLeaves=VN), None),
                 ("prog-scalar5", dict(MaxNodes=5, GAlpha={-2}, Ops={"add", "mul"}, MaxHist=4, MaxBackward=1, Acts={"op", "bw"}, InitLeaves=SS), 60000),
                 # an earlier result (root or interior of a previous backward) reused inside a new graph that is differentiated again
-                ("prog-reuse", dict(MaxNodes=4, GAlpha={-2}, Ops={"add", "mul"}, MaxHist=4, MaxBackward=2, Acts={"op", "bw"}, InitLeaves=SS), 40000)]
+                ("prog-reuse", dict(MaxNodes=4, GAlpha={-2}, Ops={"add", "mul"}, MaxHist=4, MaxBackward=2, Acts={"op", "bw"}, InitLeaves=SS), 40000),
+                # a vector consumed through a multi-output / indexing operator AND by another operator (fan-out across unbind)
+                ("prog-fanout", dict(MaxNodes=5, GAlpha={-2, 3}, Ops={"unbind", "idx", "sum", "add", "mul"}, UseVec=True, MaxHist=4, MaxBackward=1,
+                                     Acts={"op", "bw"}, InitLeaves=[dict(vec=True, rg=True)]), 30000)]
         sims = [("sim", dict(MaxNodes=9, GAlpha={1, -2, 3}, Ops=ALL, UseVec=True, MaxHist=9, MaxBackward=1, Acts={"op", "bw"},
                              InitLeaves=[dict(vec=False, rg=True), dict(vec=True, rg=True), dict(vec=False, rg=False)]), 80)]
     else:
@@ -44,7 +47,9 @@ def run(ctx):
         runs = [("prog-vec", dict(MaxNodes=5, GAlpha={-2, 3}, Ops=ALL, UseVec=True, MaxHist=4, MaxBackward=1, Acts={"op", "bw"}, InitLeaves=VS), 800000),
                 ("prog-vec-nograd", dict(MaxNodes=4, GAlpha={3, -1}, Ops=ALL, UseVec=True, MaxHist=3, MaxBackward=1, Acts={"op", "bw"}, InitLeaves=VN), None),
                 ("prog-scalar5", dict(MaxNodes=5, GAlpha={-2}, Ops={"add", "mul", "sub"}, MaxHist=4, MaxBackward=1, Acts={"op", "bw"}, InitLeaves=SS), None),
-                ("prog-reuse", dict(MaxNodes=5, GAlpha={-2}, Ops={"add", "mul"}, MaxHist=5, MaxBackward=2, Acts={"op", "bw"}, InitLeaves=SS), 400000)]
+                ("prog-reuse", dict(MaxNodes=5, GAlpha={-2}, Ops={"add", "mul"}, MaxHist=5, MaxBackward=2, Acts={"op", "bw"}, InitLeaves=SS), 400000),
+                ("prog-fanout", dict(MaxNodes=6, GAlpha={-2, 3}, Ops={"unbind", "idx", "sum", "sq", "add", "mul", "stack"}, UseVec=True, MaxHist=5, MaxBackward=1,
+                                     Acts={"op", "bw"}, InitLeaves=[dict(vec=True, rg=True)]), 400000)]
         sims = [("sim", dict(MaxNodes=12, GAlpha={1, -2, 3}, Ops=ALL, UseVec=True, MaxHist=12, MaxBackward=1, Acts={"op", "bw"},
                              InitLeaves=[dict(vec=False, rg=True), dict(vec=True, rg=True), dict(vec=False, rg=False)]), 20000)]
     for name, consts, limit in runs:
